@@ -8,9 +8,17 @@ package roundrobin
 // member list, the member list is small enough for the weight computation, and the map exists.
 //@ pred rrInv(r) = r != nil && r.mapValues != nil && len(r.endpoints) <= 16777216 && len(r.staticWeightRouterCache) <= 1694498817 && (forall j {r.staticWeightRouterCache[j]} :: (0 <= j && j < len(r.staticWeightRouterCache)) ==> (0 <= r.staticWeightRouterCache[j] && r.staticWeightRouterCache[j] < len(r.endpoints)))
 //
+// Set agreement between the member list and the key map (the "current set" of the property is a set of hosts):
+// every member's host is a key of the map, and no two members share a host. Add keeps it because it consults the
+// map first; Remove relies on it to know that deleting the first member with the host deletes the only one.
+//@ pred rrKeys(r) = forall i {r.endpoints[i].Host} :: (0 <= i && i < len(r.endpoints)) ==> haskey(r.mapValues, r.endpoints[i].Host)
+//@ pred rrDistinct(r) = forall i, j {r.endpoints[i].Host, r.endpoints[j].Host} :: (0 <= i && i < j && j < len(r.endpoints)) ==> r.endpoints[i].Host != r.endpoints[j].Host
+//@ pred rrSet(r) = rrKeys(r) && rrDistinct(r)
+//
 //@ func New
 //@   allocates
 //@   ensures [C13] rrInv(result) && fresh(result) && len(result.endpoints) == 0 && result.enableWeight == enableWeight
+//@   ensures [C13] rrSet(result)
 //@   safety [C13]
 //
 //@ func (*RoundRobin).Select
@@ -39,6 +47,9 @@ package roundrobin
 //@   ensures [C13] err == nil ==> (len(r.endpoints) == old(len(r.endpoints)) + 1 && r.endpoints[old(len(r.endpoints))] == ep)
 //@   ensures [C13] objof(r.endpoints) == old(objof(r.endpoints)) || fresh(r.endpoints)
 //@   ensures r.mapValues != nil
+//@   ensures [C13] old(rrKeys(r)) ==> rrKeys(r)
+//@   ensures [C13] old(rrSet(r)) ==> rrDistinct(r)
+//@   perreturn
 //@   safety [C13]
 //
 //@ func (*RoundRobin).Add
@@ -46,6 +57,7 @@ package roundrobin
 //@   modifies r.endpoints, elems(r.endpoints), mapcells(r.mapValues), r.lastPosition, r.lastStaticWeightPosition, r.staticWeightRouterCache
 //@   allocates
 //@   ensures [C13] result == nil ==> rrInv(r)
+//@   ensures [C13] old(rrSet(r)) ==> rrSet(r)
 //@   safety [C13]
 //
 //@ func (*RoundRobin).Refresh
@@ -55,6 +67,8 @@ package roundrobin
 //@   ensures [C13] rrInv(r)
 //@   ensures [C13] cap(r.endpoints) == 0 || fresh(r.endpoints)
 //@   ensures [C13] len(r.endpoints) <= len(eps)
+//@   ensures [C13] rrSet(r)
+//@   loop 0 invariant [C13] rrSet(r)
 //@   loop 0 invariant r != nil && r.mapValues != nil && fresh(r.mapValues) && len(r.endpoints) <= rangeindex + 1 && (cap(r.endpoints) == 0 || fresh(r.endpoints)) && (objof(r.endpoints) == objof(atentry(0, r.endpoints)) || loopfresh(0, r.endpoints))
 //@   loop 0 modifies r.endpoints, elems(r.endpoints), mapcells(r.mapValues)
 //@   safety [C13]
@@ -65,5 +79,10 @@ package roundrobin
 //@   allocates
 //@   ensures [C13] rrInv(r)
 //@   ensures [C13] len(r.endpoints) <= old(len(r.endpoints))
+//@   ensures [C13] (old(rrSet(r)) && result == nil) ==> (forall i {r.endpoints[i].Host} :: (0 <= i && i < len(r.endpoints)) ==> r.endpoints[i].Host != ep.Host)
+//@   ensures [C13] (old(rrSet(r)) && result == nil) ==> rrKeys(r)
+//@   ensures [C13] (old(rrSet(r)) && result == nil) ==> rrDistinct(r)
+//@   perreturn
 //@   loop 0 invariant r != nil && r.mapValues != nil && hdr(r.endpoints) == old(hdr(r.endpoints))
+//@   loop 0 invariant [C13] forall i {r.endpoints[i].Host} :: (0 <= i && i <= rangeindex) ==> r.endpoints[i].Host != ep.Host
 //@   safety [C13]
